@@ -131,6 +131,13 @@ func (p *BlockParser) NextBlock() (*RootBlock, error) {
 		}
 		if hasText {
 			addLineText(lp)
+		} else {
+			// The line was consumed by a block rule (a thematic break, a heading, a fence, ...)
+			// without passing through addLineText.
+			// It is not blank: the blocks that stay open no longer end in a blank line.
+			for c := lp.container; c != nil; c = findParent(&lp.root, c) {
+				c.lastLineBlank = false
+			}
 		}
 		if next := p.makeRoot(lp.root.blockChildren); next != nil {
 			return next, nil
